@@ -109,7 +109,7 @@ def build_constraint(d):
     import random
     import dnachisel as dc
     k = d["kind"]
-    loc = mkloc(tuple(d["location"])) if "location" in d else None
+    loc = mkloc(tuple(d["location"])) if ("location" in d and not d.get("no_location")) else None
     if k == "keep":
         if d.get("max_edits_percent") is not None:
             return dc.AvoidChanges(location=loc, max_edits_percent=d["max_edits_percent"])
@@ -146,7 +146,18 @@ class Stub:
 def init_constraints(seq, descs):
     """-> (stub problem with initialised constraints) ; raises what the constructors raise"""
     stub = Stub(seq)
-    stub.constraints = [build_constraint(d).initialized_on_problem(stub, role="constraint") for d in descs]
+    objs = []
+    for d in descs:
+        c = build_constraint(d)
+        if d.get("used_before"):
+            # the user's specification object was part of an earlier problem on another sequence (one list of
+            # constraints applied to a batch of sequences): it must not influence this problem
+            try:
+                c.initialized_on_problem(Stub(d["used_before"]), role="constraint")
+            except Exception:
+                pass
+        objs.append(c)
+    stub.constraints = [c.initialized_on_problem(stub, role="constraint") for c in objs]
     return stub
 
 
@@ -205,7 +216,33 @@ def rand_problem(rng, nmin=3, nmax=12, kmax=4, kinds=None):
     for d in descs:
         if d["kind"] == "cds" and rng.random() < 0.35:
             seq = plant_coding_region(rng, seq, d)
+    if descs and rng.random() < 0.2:
+        other = rand_seq(rng, n + rng.choice([0, 0, 0, 2]))
+        for d in descs:
+            d["used_before"] = other
     return seq, descs
+
+
+class shared_locations:
+    """within the block, every distinct (start, end, strand) triple is handed to the constructors as ONE dnachisel
+    Location object: a user who builds `gene = Location(...)` once and passes it to several specifications"""
+
+    def __enter__(self):
+        import sys
+        import dnachisel as dc
+        self._mod = sys.modules[__name__]
+        self._orig = self._mod.mkloc
+        memo = {}
+
+        def mkloc(t):
+            if t not in memo:
+                memo[t] = dc.Location(*t)
+            return memo[t]
+        self._mod.mkloc = mkloc
+        return self
+
+    def __exit__(self, *a):
+        self._mod.mkloc = self._orig
 
 
 class shared_tables:
